@@ -22,7 +22,7 @@ def estr(x):
 
 
 def gen(rng, tier):
-    n = 12 if tier == "quick" else 250
+    n = 14 if tier == "quick" else 250
     cases = []
     for g in range(n):
         s = G.gen_solvable(rng)
@@ -31,7 +31,7 @@ def gen(rng, tier):
             s.secs["rod"] = (Fr("0.2827"), Fr("0.00636"), Fr("0.00636"), Fr("0.0212"), Fr("0.0212"))
             rng.choice(s.bars)["sec"] = "rod"
         w = (g % 3 == 0)
-        k = 2 if tier == "quick" else 4
+        k = 3 if tier == "quick" else 4
         picks = [SYSTEMS[(k * g + j) % len(SYSTEMS)] for j in range(k)]     # every system is used by some group of every run
         c = core.case_from_struct(s, Weight=w, Solve=True, Assemble=True, Error=estr(BASE_ERR))
         c.update(group=g, role="base")
@@ -166,7 +166,7 @@ SPEC = {
     "corpus_filter": lambda c: False,
     "stages": [("F", lambda c, o, rng: solcore.stageF(c, o, rng) if c.get("role") == "units" else None, P.stageF_v, 2, 24)],
     "nontrivial": lambda c, o: M.solved(o) and c.get("role") == "units",
-    "rule": "groups: a solvable structure (as C01, cm / N-like magnitudes) and the same structure in 2 (quick) or 4 (thorough) of the unit systems m,N  mm,N  m,kN  cm,kN  mm,kN  in,lbf  ft,lbf  100km,N  cm,MN  km,GN (each system used by some group of every run) "
+    "rule": "groups: a solvable structure (as C01, cm / N-like magnitudes) and the same structure in 3 (quick) or 4 (thorough) of the unit systems m,N  mm,N  m,kN  cm,kN  mm,kN  in,lbf  ft,lbf  100km,N  cm,MN  km,GN (each system used by some group of every run) "
             "(every length, area, inertia, modulus, density, force, distributed load and the error option converted; values that are not finite decimals written with 17 significant digits); own weight on every "
             "third group; every other group has a slender member (6 mm rod, I = 6.4e-11 m^4). Oracle: solves in one system iff in the other; translations x lam, rotations x 1, reactions and shear x phi, moments x phi lam, stresses x phi / lam^2 at every common position.",
     "assumptions": ["solver oracle as C01; conversion rounds non-decimal factors to 17 significant digits (relative 1e-9 allowance)",
